@@ -6,6 +6,9 @@ import ast
 
 from ..core import (AnalysisError, body_nodes, call_name, dotted, is_self_attr, key_text, names_in,
                     params, parent, stmts_of, unparse)
+from ..dtable import run_paths, subst
+from ..normal import inline_temps
+from ..pattern import find, guards_of, pmatch
 from ..linform import NotPoly, Poly, eval_poly
 
 MC = 'tenpy/algorithms/mps_common.py'
@@ -212,24 +215,69 @@ def check_hcflag_sites(prog, rep):
 def check_env_pairing(prog, rep):
     m = prog.module(MC)
     f = m.func('Sweep.update_env')
-    src = unparse(f)
     rep.instance('HOOKS-env-pairing', {'function': 'Sweep.update_env'})
-    ok = 'i_L, i_R = self._update_env_inds()' in src and 'env.del_LP(i_R)' in src and \
-        'env.del_RP(i_L)' in src and "self.eff_H.update_LP(self.env, i_R, update_data['U'])" in \
-        src and "self.eff_H.update_RP(self.env, i_L, update_data['VH'])" in src
-    if not ok:
+    why = None
+    ind = find('$l, $r = self._update_env_inds()', f)
+    if len(ind) != 1:
+        why = 'the updated pair (i_L, i_R) must come from self._update_env_inds()'
+    else:
+        L_, R_ = ind[0][1]['$l'], ind[0][1]['$r']
+        need = [('$$e.del_LP(%s)' % R_, 'left parts up to i_R are outdated: del_LP(i_R)'),
+                ('$$e.del_RP(%s)' % L_, 'right parts from i_L are outdated: del_RP(i_L)'),
+                ("self.eff_H.update_LP(self.env, %s, update_data['U'])" % R_,
+                 'LP of i_R is rebuilt from U'),
+                ("self.eff_H.update_RP(self.env, %s, update_data['VH'])" % L_,
+                 'RP of i_L is rebuilt from VH')]
+        for pat, what in need:
+            if not find(pat, f):
+                why = what
+        for wrong in ('$$e.del_LP(%s)' % L_, '$$e.del_RP(%s)' % R_,
+                      "self.eff_H.update_LP(self.env, %s, $$u)" % L_,
+                      "self.eff_H.update_RP(self.env, %s, $$u)" % R_):
+            if find(wrong, f):
+                why = 'LP/RP paired with the wrong index (`%s`)' % wrong
+        # the rebuilds are conditional on the matching flag of update_LP_RP
+        fl = find('$ul, $ur = self.update_LP_RP', f)
+        if fl and why is None:
+            ul_, ur_ = fl[0][1]['$ul'], fl[0][1]['$ur']
+            for pat, flag in (("self.eff_H.update_LP(self.env, %s, update_data['U'])" % R_, ul_),
+                              ("self.eff_H.update_RP(self.env, %s, update_data['VH'])" % L_, ur_)):
+                for node, _ in find(pat, f):
+                    st = node
+                    while not isinstance(st, ast.stmt):
+                        st = parent(st)
+                    if (flag, True) not in [(t, pol) for t, pol, _ in guards_of(f, st)]:
+                        why = '`%s` must be conditional on `%s`' % (unparse(node)[:50], flag)
+    if why:
         rep.violation('HOOKS-env-pairing', m, 'Sweep.update_env', 'env-indices',
                       'after updating sites (i_L, i_R): LP on i_R (from U) and RP on i_L (from VH) '
-                      'are outdated and must be deleted / recomputed with exactly these indices',
-                      f.lineno)
+                      'are outdated and must be deleted / recomputed with exactly these indices: '
+                      + why, f.lineno)
     g = m.func('Sweep._update_env_inds')
-    srcg = unparse(g)
     rep.instance('HOOKS-env-pairing', {'function': 'Sweep._update_env_inds'})
-    if 'i_L = self.i0\n' not in srcg or 'i_R = self.i0 + 1' not in srcg or \
-            'i_L = self.i0 - 1' not in srcg or 'n == 2 or move_right' not in srcg:
-        rep.violation('HOOKS-env-pairing', m, 'Sweep._update_env_inds', 'inds',
-                      '(i_L, i_R) = (i0, i0+1) for two-site or right-moving updates, (i0-1, i0) '
-                      'otherwise', g.lineno)
+    body = [s for s in g.body if not (isinstance(s, ast.Expr) and isinstance(s.value, ast.Constant))]
+    i0 = Poly.sym('self.i0')
+    for n_opt in (1, 2):
+        for mv in (True, False):
+            want = (i0, i0 + Poly.const(1)) if (n_opt == 2 or mv) else (i0 - Poly.const(1), i0)
+            got = []
+            for p in run_paths(body, {'self.n_optimize': n_opt, 'self.move_right': mv}):
+                if p.outcome != 'return':
+                    got.append(p.outcome)
+                    continue
+                v = subst(p.value, p.env)
+                try:
+                    got.append(tuple(eval_poly(e, {}) for e in v.elts)
+                               if isinstance(v, ast.Tuple) else unparse(v))
+                except NotPoly:
+                    got.append(unparse(v))
+            rep.instance('HOOKS-env-pairing', {'n_optimize': n_opt, 'move_right': mv,
+                                               'inds': [repr(x) for x in got]})
+            if got != [want]:
+                rep.violation('HOOKS-env-pairing', m, 'Sweep._update_env_inds', 'inds',
+                              '(i_L, i_R) = (i0, i0+1) for two-site or right-moving updates, '
+                              '(i0-1, i0) otherwise; for n_optimize=%d, move_right=%s the function '
+                              'gives %s' % (n_opt, mv, [repr(x) for x in got]), g.lineno)
     # order in sweep(): update_local before update_env before post_update_local
     s = m.func('Sweep.sweep')
     rep.instance('HOOKS-env-pairing', {'function': 'Sweep.sweep'})
